@@ -537,9 +537,9 @@ struct EmitterExplicitT {
   ASMJIT_INST_2x(stllrb, Stllrb, Gp, Mem)
   ASMJIT_INST_2x(stllrh, Stllrh, Gp, Mem)
 
-  ASMJIT_INST_2x(stlr, Stllr, Gp, Mem)
-  ASMJIT_INST_2x(stlrb, Stllrb, Gp, Mem)
-  ASMJIT_INST_2x(stlrh, Stllrh, Gp, Mem)
+  ASMJIT_INST_2x(stlr, Stlr, Gp, Mem)
+  ASMJIT_INST_2x(stlrb, Stlrb, Gp, Mem)
+  ASMJIT_INST_2x(stlrh, Stlrh, Gp, Mem)
 
   ASMJIT_INST_3x(stlxr, Stlxr, Gp, Gp, Mem)
   ASMJIT_INST_3x(stlxrb, Stlxrb, Gp, Gp, Mem)
